@@ -308,6 +308,9 @@ def tree_expr(S, sp, T, A, x, y, rng=None):
     est = tree_cost(A)
     arrs, scals = S.env_F()
     rtol = RTOL_NUFFT if E["has_nufft"] else RTOL
+    # absolute floor: trees such as A - Conj(Conj(A)) cancel to rounding noise; the data are integers of magnitude <= ~5 and the
+    # operators have modest gain, so rtol * 64 * |x|_max is far below anything a defect produces
+    atol = rtol * 64.0 * max(1.0, float(np.max(np.abs(x))) if np.size(x) else 1.0)
     if est > EST_SPLIT and rng is not None:
         from vlib import lingen
         n0 = len(S.opaque)
@@ -323,10 +326,10 @@ def tree_expr(S, sp, T, A, x, y, rng=None):
                 yl = np.asarray(a(xl.copy()))
                 lcs.append("(%s, (%s, %s))" % (t, L.cflist(np.ravel(xl)), L.cflist(np.ravel(yl))))
         del S.opaque[n0:]
-        return ("chk_apply_split (* est %.1f *) %s %s %s %s %s %s %s %d %s %s" % (
-                    est, L.flt(rtol), E["env"], T, arrs, scals, "[" + "; ".join(mats) + "]", "[" + "; ".join(lcs) + "]", nfb,
+        return ("chk_apply_split_a (* est %.1f *) %s %s %s %s %s %s %s %s %d %s %s" % (
+                    est, L.flt(atol), L.flt(rtol), E["env"], T, arrs, scals, "[" + "; ".join(mats) + "]", "[" + "; ".join(lcs) + "]", nfb,
                     L.cflist(np.ravel(x)), L.cflist(np.ravel(y))),
                 dict(mode="split", n_leaves=len(leaves), n_fallback=nfb, families=sorted(E["families"]), est_cost=est))
-    return ("chk_apply_std (* est %.1f *) %s %s %s %s %s %s %d %s %s" % (est, L.flt(rtol), E["env"], T, arrs, scals, E["mats"], nfb,
+    return ("chk_apply_std_a (* est %.1f *) %s %s %s %s %s %s %s %d %s %s" % (est, L.flt(atol), L.flt(rtol), E["env"], T, arrs, scals, E["mats"], nfb,
                                                         L.cflist(np.ravel(x)), L.cflist(np.ravel(y))),
             dict(mode="float", n_leaves=len(leaves), n_fallback=nfb, families=sorted(E["families"]), est_cost=est))
